@@ -38,23 +38,32 @@ fn observer(a1: u64, _a2: u64, _a3: u64, _a4: u64, _a5: u64) -> u64 {
 }
 
 fn worker_prog(addr: u64, width: u8, addend: u64, iters: u32, observe: bool) -> Vec<u8> {
+    worker_prog_regs(addr, width, addend, iters, observe, 6, 7, 0)
+}
+
+/// `base`/`src` registers and the offset field vary per thread: every (base register, displacement
+/// encoding) pair is a different x86 instruction encoding under the JIT. The loop counter lives in
+/// a callee-saved register distinct from both; base and source are reloaded every iteration because
+/// the observer call may clobber r1-r5.
+fn worker_prog_regs(addr: u64, width: u8, addend: u64, iters: u32, observe: bool, base: u8, src: u8, off: i16) -> Vec<u8> {
     let opc = if width == 4 { XADD_W } else { XADD_DW };
-    let mut v = vec![
-        Insn::new(LDDW, 6, 0, 0, addr as u32 as i32),
-        Insn::new(0, 0, 0, 0, (addr >> 32) as u32 as i32),
-        Insn::new(LDDW, 7, 0, 0, addend as u32 as i32),
-        Insn::new(0, 0, 0, 0, (addend >> 32) as u32 as i32),
-        Insn::new(MOV64_IMM, 8, 0, 0, iters as i32),
-    ];
+    let counter = (6..=9u8).find(|r| *r != base && *r != src).unwrap();
+    let b = addr.wrapping_sub(off as i64 as u64);
+    let mut v = vec![Insn::new(MOV64_IMM, counter, 0, 0, iters as i32)];
     let top = v.len();
-    v.push(Insn::new(opc, 6, 7, 0, 0));
+    v.push(Insn::new(LDDW, base, 0, 0, b as u32 as i32));
+    v.push(Insn::new(0, 0, 0, 0, (b >> 32) as u32 as i32));
+    v.push(Insn::new(LDDW, src, 0, 0, addend as u32 as i32));
+    v.push(Insn::new(0, 0, 0, 0, (addend >> 32) as u32 as i32));
+    v.push(Insn::new(opc, base, src, off, 0));
     if observe {
-        v.push(Insn::new(MOV64_REG, 1, 6, 0, 0));
+        v.push(Insn::new(LDDW, 1, 0, 0, addr as u32 as i32));
+        v.push(Insn::new(0, 0, 0, 0, (addr >> 32) as u32 as i32));
         v.push(Insn::new(CALL, 0, 0, 0, 1));
     }
-    v.push(Insn::new(ADD64_IMM, 8, 0, 0, -1));
-    let off = top as i64 - (v.len() as i64 + 1);
-    v.push(Insn::new(JNE_IMM, 8, 0, off as i16, 0));
+    v.push(Insn::new(ADD64_IMM, counter, 0, 0, -1));
+    let o = top as i64 - (v.len() as i64 + 1);
+    v.push(Insn::new(JNE_IMM, counter, 0, o as i16, 0));
     v.push(Insn::new(MOV64_IMM, 0, 0, 0, 0));
     v.push(Insn::new(EXIT, 0, 0, 0, 0));
     encode_prog(&v)
@@ -69,6 +78,8 @@ struct RunSpec {
     addends: Vec<u64>,
     engines: Vec<Engine>,
     monotone: bool,
+    /// per thread: (base register, source register, offset field)
+    regs: Vec<(u8, u8, i16)>,
 }
 
 struct RunOut {
@@ -90,7 +101,7 @@ fn execute_run(spec: &RunSpec, buf: &GuardBuf) -> RunOut {
     }
     OBS_WIDTH.store(spec.width as u32, Ordering::Relaxed);
     let barrier = Arc::new(Barrier::new(spec.nthreads));
-    let progs: Vec<Vec<u8>> = (0..spec.nthreads).map(|t| worker_prog(word, spec.width, spec.addends[t], spec.iters, true)).collect();
+    let progs: Vec<Vec<u8>> = (0..spec.nthreads).map(|t| worker_prog_regs(word, spec.width, spec.addends[t], spec.iters, true, spec.regs[t].0, spec.regs[t].1, spec.regs[t].2)).collect();
     let (buf_ptr, buf_len) = (base, buf.len());
     let mut outs: Vec<(bool, Vec<u64>)> = Vec::new();
     std::thread::scope(|s| {
@@ -241,7 +252,19 @@ fn gen_spec(rng: &mut Rng, q: bool, engines_avail: &[Engine], small: bool) -> Ru
             _ => engines_avail[(t + rng.below(2) as usize) % engines_avail.len()],
         })
         .collect();
-    RunSpec { width, nthreads, iters, init: if width == 4 { init & 0xffff_ffff } else { init }, addends, engines, monotone }
+    // one (base, src, offset) combination per run for all threads, or a different one per thread
+    let pick = |rng: &mut Rng| -> (u8, u8, i16) {
+        let base = *rng.pick(&[1u8, 2, 3, 4, 5, 6, 7, 8, 9]);
+        let mut src = *rng.pick(&[1u8, 2, 3, 4, 5, 6, 7, 8, 9, 0]);
+        if src == base {
+            src = if base == 9 { 8 } else { base + 1 };
+        }
+        (base, src, *rng.pick(&[0i16, 0, 8, -8, 127, -128, 128, 1000, -1000, i16::MAX, i16::MIN]))
+    };
+    let same = rng.chance(1, 2);
+    let first = pick(rng);
+    let regs: Vec<(u8, u8, i16)> = (0..nthreads).map(|_| if same { first } else { pick(rng) }).collect();
+    RunSpec { width, nthreads, iters, init: if width == 4 { init & 0xffff_ffff } else { init }, addends, engines, monotone, regs }
 }
 
 pub fn run(a: &Args, rep: &mut Report) {
@@ -347,7 +370,7 @@ pub fn run(a: &Args, rep: &mut Report) {
             s.iters /= 2;
         }
         rep.case(Some(crate::util::fnv(format!("{s:?}").as_bytes())));
-        let w = json!({"kind": "xadd-run", "width": s.width, "threads": s.nthreads, "iters": s.iters, "init": format!("{:#x}", s.init), "addends": s.addends.iter().map(|a| format!("{a:#x}")).collect::<Vec<_>>(), "engines": s.engines.iter().map(|e| e.name()).collect::<Vec<_>>(), "prog": hex(&worker_prog(buf.addr() + 16, s.width, s.addends[0], s.iters, true))});
+        let w = json!({"kind": "xadd-run", "width": s.width, "threads": s.nthreads, "iters": s.iters, "init": format!("{:#x}", s.init), "addends": s.addends.iter().map(|a| format!("{a:#x}")).collect::<Vec<_>>(), "engines": s.engines.iter().map(|e| e.name()).collect::<Vec<_>>(), "base_src_off": s.regs.iter().map(|r| format!("{:?}", r)).collect::<Vec<_>>(), "prog": hex(&worker_prog(buf.addr() + 16, s.width, s.addends[0], s.iters, true))});
         let mixname = {
             let mut e: Vec<&str> = s.engines.iter().map(|e| e.name()).collect();
             e.sort();
@@ -356,6 +379,10 @@ pub fn run(a: &Args, rep: &mut Report) {
         };
         rep.set("engine_mixes", mixname.clone());
         rep.set("thread_counts", format!("{}", s.nthreads));
+        for r in &s.regs {
+            rep.set("base_registers", format!("r{}", r.0));
+            rep.set("offset_fields", format!("{}", r.2));
+        }
         rep.add("atomic_adds", s.nthreads as u64 * s.iters as u64);
         match o {
             Err(e) if e.starts_with("inconclusive") => rep.inconclusive(e.clone()),
